@@ -37,7 +37,7 @@ ASSUMPTIONS = [
 
 TEXTS = ["a", "b1", "1", "a.b", "a/b", "a b", "[", "]", "(", ")", "'", '"',
          "\\", "^", "$", "%", "a[0]", "x(y)", "it's", 'say "hi"', "a\\b",
-         "50%", "^a$", ".", "/", " ", "a.b/c d"]
+         "50%", "^a$", ".", "/", " ", "a.b/c d", "/x", "/a.b", "./x"]
 SIMPLE = ["a", "b1", "1"]
 SEGS1 = []
 PATHS = []
@@ -246,14 +246,22 @@ def roundtrip(st, segs):
             other.separator = (PathSeparators.FSLASH if sep == "."
                                else PathSeparators.DOT)
             otext = str(other)
-            if not (otext.startswith("/") and sep == "/"):
-                if other.separator is PathSeparators.DOT and \
-                        otext.startswith("/"):
-                    st.extra["dot_paths_starting_with_slash_excluded"] += 1
-                elif parse(otext) != segs:
-                    st.fail("switch-notation|%s|from%s" % (sig, sep), case,
-                            repr(segs), "%r -> %r" % (otext, parse(otext)))
-                    continue
+            # (a canonical dot-notated string never starts with "/": the
+            # stringifier escapes it, so nothing is excluded here)
+            if parse(otext) != segs:
+                st.fail("switch-notation|%s|from%s" % (sig, sep), case,
+                        repr(segs), "%r -> %r" % (otext, parse(otext)))
+                continue
+            # ... and switching on an object that was never stringified
+            fresh = YAMLPath(text)
+            fresh.separator = PathSeparators.DOT
+            fresh.separator = PathSeparators.FSLASH
+            fresh.separator = PathSeparators.DOT
+            if parse(str(fresh)) != segs:
+                st.fail("switch-notation-twice|%s|from%s" % (sig, sep), case,
+                        repr(segs), "%r -> %r" % (str(fresh),
+                                                  parse(str(fresh))))
+                continue
             # append then pop restores the path and leaves the original alone
             before = str(path)
             grown = path + "zz"
